@@ -12,9 +12,9 @@ Tags are `List Char` (`"maxval:255".toList` reduces in the kernel, `String.split
 * `maxval:N` and `size:S` **replace** whatever was collected so far by `{count := byteCount N}` resp.
   `{count := S}`; `maxlen:N` sets `count := byteCount N` and `maxlen`; `minlen:`, `selector:`, `val:`
   fill their field;
-* an info without selector must have `1 ≤ count ≤ 8`, `minlen ≤ maxlen`, `val = 0` (structural error
-  otherwise); a field without any recognised clause gets an info holding only its name; the top-level
-  call (`name = ""`) gets none at all.
+* the final checks on the collected info (`1 ≤ count ≤ 8`, `minlen ≤ maxlen`, `val = 0`, and when they apply) are
+  the regenerated kernel `Gen.tagFinalChecks`; a field without any recognised clause gets an info holding only
+  its name; the top-level call (`name = ""`) gets none at all.
 
 `byteCount` is the regenerated kernel `Gen.byteCount`.
 -/
@@ -108,18 +108,14 @@ def tagClause (info : Option FieldInfo) (part : List Char) : Option FieldInfo :=
     | none => info
   | none => info
 
-/-- The checks after the loop. -/
+/-- The checks after the loop: the regenerated kernel `Gen.tagFinalChecks` (body of `if info != nil { … }`). -/
 def tagFinish (info : Option FieldInfo) (name : String) : Except Err (Option FieldInfo) :=
   match info with
   | some i =>
     let i := { i with name := name }
-    if i.selector = "" then
-      if i.count < 1 then .error .structural
-      else if i.count > 8 then .error .structural
-      else if i.minlen > i.maxlen then .error .structural
-      else if i.val > 0 then .error .structural
-      else .ok (some i)
-    else .ok (some i)
+    if Gen.tagFinalChecks (decide (i.selector = "")) i.countSet (Int.ofNat i.count) (Int.ofNat i.minlen) (Int.ofNat i.maxlen)
+        (Int.ofNat i.val) then .ok (some i)
+    else .error .structural
   | none => if name ≠ "" then .ok (some { name := name }) else .ok none
 
 /-- `fieldTagToFieldInfo(str, name)`. -/
@@ -141,6 +137,8 @@ inductive GoTy where
 inductive GoFields where
   | nil
   | cons (name : String) (tag : List Char) (t : GoTy) (rest : GoFields)
+  /-- an unexported or blank (`_`) field: readable through reflection, not settable -/
+  | consRO (name : String) (tag : List Char) (t : GoTy) (rest : GoFields)
 end
 
 /-- `t.Kind() == reflect.Uint8` -/
@@ -184,7 +182,16 @@ def resolveFields : GoFields → Fields
       else
         match t with
         | .ptr e => .variant name i.selector i.val (resolve false e (some i)) (resolveFields rest)
+        | .named (.ptr e) => .variant name i.selector i.val (resolve false e (some i)) (resolveFields rest)  -- `type P *T`: Kind() is Ptr
         | _ => .plain name .bad (resolveFields rest)
+  | .consRO name tag t rest =>
+    -- Marshal reads the field like any other; Unmarshal cannot set it. (A read-only *variant* is not modelled: refused.)
+    match parseTag tag name with
+    | .error _ => .plain name .bad (resolveFields rest)
+    | .ok none => .plain name (.ro (resolve false t none)) (resolveFields rest)
+    | .ok (some i) =>
+      if i.selector = "" then .plain name (.ro (resolve false t (some i))) (resolveFields rest)
+      else .plain name .bad (resolveFields rest)
 end
 
 /-- `tls.MarshalWithParams(v, params)` / `tls.UnmarshalWithParams(b, &v, params)`: the parameter string is one more tag. -/
